@@ -36,6 +36,7 @@ def feat_for(tier):
     f["max_nodes"] = 10
     f["targets"] = "stack"
     f["dup_args"] = True
+    f["ctor_lists"] = True
     if tier == "thorough":
         f.update(max_nodes=16, max_depth=4, max_steps=10, max_roots=4)
     return f
